@@ -7,14 +7,14 @@ namespace Cnfgen.Solver
 
 /-! ### line-by-line reading of the loop -/
 
-/-- the exception the loop raises at this line, if any (`ValueError` for a value line with a
-non-integer word; status lines never raise) -/
+/-- the exception the loop raises at this line, if any (a value line with a non-integer word:
+the `ValueError` of `int()` re-raised as `RuntimeError`; status lines never raise) -/
 def lineErr (l : Str) : Option Err :=
   match l with
   | [] => none
   | c :: _ =>
     if c = 'v' then
-      match vInts l with
+      match catchValueError (vInts l) with
       | .error e => some e
       | .ok _ => none
     else none
@@ -60,7 +60,8 @@ theorem stepLine_ok (st : PState) (l : Str) (h : lineErr l = none) :
       split at h
       · cases h
       · rename_i ws heq
-        simp [heq]
+        have hv := (catchValueError_ok _ _).mp heq
+        simp [hv, catchValueError]
     · by_cases hs : c = 's'
       · subst hs
         simp [stepLine, applyVerdict, lineVerdict, lineLits, hv]
@@ -296,7 +297,7 @@ theorem lineErr_renderValues (lits : List (Str × Int)) (z : Option Str) (trail 
   have hv := vInts_renderValues lits z trail h hz ht
   obtain ⟨cs, hcs⟩ := renderValues_head lits z trail
   rw [hcs] at hv ⊢
-  simp [lineErr, hv]
+  simp [lineErr, hv, catchValueError]
 
 theorem lineLits_renderValues (lits : List (Str × Int)) (z : Option Str) (trail : Str)
     (h : GoodLits lits) (hz : GoodZero z) (ht : AllSpace trail) :
